@@ -69,9 +69,19 @@ func c09History(r *run, g *rng, kind int, tagW, minW int, probeLvl int, pc uintp
 			c := &encCase{format: []string{"c", "l", "j"}[g.intn(3)], lvl: 4, ts: g.encTime(), msg: "other flags", tagW: tagW, minW: minW, name: "h8", caller: true, pc: pc}
 			rec := &recorder{}
 			var l slog.Logger = slog.New("h8").SetWriter(rec).SetLevel(slog.TraceLevel)
-			slog.SetFlags((slog.LstdFlags | slog.Lcaller | slog.LnoInterrupt) &^ (slog.Lprivacypath | slog.Lprivacypathregexp))
-			l.(slog.LogSlogAware).WriteThru(context.Background(), slog.InfoLevel, c.ts, pc, c.msg, nil)
-			desc = append(desc, "record from the probe's call site without the privacy flags")
+			if g.chance(1, 2) {
+				slog.SetFlags((slog.LstdFlags | slog.Lcaller | slog.LnoInterrupt) &^ (slog.Lprivacypath | slog.Lprivacypathregexp))
+				l.(slog.LogSlogAware).WriteThru(context.Background(), slog.InfoLevel, c.ts, pc, c.msg, nil)
+				desc = append(desc, "record from the probe's call site without the privacy flags")
+			} else {
+				// … inside a save / modify / restore scope; afterwards the probe's own flag word is in force again
+				// without any flag setter having been called
+				slog.SetFlags(slog.LstdFlags | slog.Lcaller | slog.LnoInterrupt)
+				restore := slog.SaveFlagsAndMod(0, slog.Lprivacypath|slog.Lprivacypathregexp)
+				l.(slog.LogSlogAware).WriteThru(context.Background(), slog.InfoLevel, c.ts, pc, c.msg, nil)
+				restore()
+				desc = append(desc, "record from the probe's call site inside a scope without the privacy flags")
+			}
 		case 0: // a multi-line colored record ending in a newline
 			c := &encCase{format: "c", lvl: encLevels[g.intn(len(encLevels))], ts: g.encTime(), msg: "first\nsecond\nthird\n", attrs: g.genAttrs(g.intn(3), 1, true, true), tagW: tagW, minW: minW, name: "h1"}
 			encRun(r, "C09", c)
@@ -274,6 +284,7 @@ func runC09(r *run) {
 			r.sample(map[string]any{"probe": encDescribe(base), "histories": hdescs})
 		}
 	}
+	c09Chains(r, g)
 	// caller attribution of one call site must not depend on what the previous record from that site carried
 	slog.VerifResetGlobals()
 	slog.SetFlags(slog.LstdFlags | slog.Lcaller)
@@ -308,4 +319,74 @@ func runC09(r *run) {
 		}
 	}
 	slog.VerifResetGlobals()
+}
+
+// c09Chains: two chains of loggers with identical configuration (inherit flag on / off, the same attributes set in the
+// same order on the same members) give the same bytes for the same final call, whether or not members of the chain
+// had formatted records before the configuration was completed.
+func c09Chains(r *run, g *rng) {
+	rounds := 60
+	if r.tier == "thorough" {
+		rounds = 900
+	}
+	for round := 0; round < rounds; round++ {
+		slog.VerifResetGlobals()
+		fl := (slog.LstdFlags &^ slog.Lcaller) | slog.LnoInterrupt
+		inherit := g.chance(2, 3)
+		if inherit {
+			fl |= slog.LattrsR
+		}
+		slog.SetFlags(fl)
+		depth := 2 + g.intn(3)
+		format := []string{"l", "j", "c"}[g.intn(3)]
+		type step struct {
+			member int
+			key    string
+			val    int
+		}
+		var steps []step
+		for k := 1 + g.intn(5); k > 0; k-- {
+			steps = append(steps, step{g.intn(depth), keyPoolLegal[g.intn(len(keyPoolLegal))], g.intn(1000)})
+		}
+		earlyAt := g.intn(len(steps) + 1) // chain B: members format records before this step
+		build := func(early bool) string {
+			rec := &recorder{}
+			var chain []slog.Logger
+			var cur slog.Logger = slog.New("svc")
+			for d := 0; d < depth; d++ {
+				if d > 0 {
+					cur = cur.New(fmt.Sprintf("m%d", d))
+				}
+				cur.SetWriter(rec).SetErrorWriter(rec).SetLevel(slog.InfoLevel)
+				c14Format(cur, format)
+				cur.SetUTCMode(true).SetTimeFormat("@")
+				chain = append(chain, cur)
+			}
+			for k, st := range steps {
+				if early && k == earlyAt {
+					for d := depth - 1; d >= 0; d-- {
+						chain[d].Info("an earlier record of this member", "n", d)
+					}
+				}
+				chain[st.member].Set(st.key, st.val)
+			}
+			if early && earlyAt == len(steps) {
+				chain[depth-1].Info("an earlier record of the innermost member")
+			}
+			rec.take()
+			chain[depth-1].Info("commit", "rows", 3)
+			w := rec.take()
+			if len(w) != 1 {
+				return fmt.Sprintf("<%d writes>", len(w))
+			}
+			return string(w[0])
+		}
+		fresh, used := build(false), build(true)
+		r.seen(fmt.Sprintf("chain|%s|%d|%v|%d", format, depth, inherit, len(steps)))
+		if fresh != used {
+			r.violate(violation{What: "the same call on identically configured logger chains gives different bytes depending on records the chain formatted earlier",
+				Input:    map[string]any{"format": format, "chain_depth": depth, "inherit_flag": inherit, "Set_calls_member_key_value": fmt.Sprint(steps), "earlier_records_before_step": earlyAt},
+				Expected: fmt.Sprintf("%q", fresh), Actual: fmt.Sprintf("%q", used)})
+		}
+	}
 }
